@@ -237,9 +237,10 @@ def check_tokens(words):
         name = type(w).__name__
         if name == "CitationToken":
             if w.short:
-                pg = w.groups.get("page")
-                if pg is None or not str(w).endswith(pg):
-                    bad.append((str(w), "short-form citation token does not end with its page group"))
+                # (the page need not end the token: 11 short-form patterns put text after it -- handled by the code since
+                # D23 and by the model; only the presence of the group is a premise)
+                if "page" not in w.groups:
+                    bad.append((str(w), "short-form citation token without a page group"))
             else:
                 eds = list(w.exact_editions) or list(w.variation_editions)
                 if not any(e.reporter.source in SRC for e in eds):
